@@ -2,7 +2,7 @@
    [pieces t]: the leaves a program plays, in order, repetitions unrolled (Model.v); [duration]: Loop.duration.
    [tree_okb]: counts >= 0 and inner nodes carry no waveform. *)
 From Coq Require Import ZArith QArith Bool List.
-Require Import QV.C06.Model QV.C06.Spec QV.C06.Proofs_props QV.C06.Gen_sfg QV.C06.Proofs_sfg.
+Require Import QV.C06.Model QV.C06.Spec QV.C06.Proofs_props QV.C06.Gen_sfg QV.C06.Proofs_sfg QV.C06.Model_idx QV.C06.Proofs_idx.
 Import ListNotations.
 Open Scope Z_scope.
 
@@ -110,3 +110,68 @@ Theorem C06_sfg_model_correct : forall n m k, smallest_factor_ge n m = Ok k -> 1
   m <= k <= n /\ n mod k = 0 /\ forall j, m <= j < k -> n mod j <> 0.
 Proof. exact sfg_model_correct. Qed.
 Print Assumptions C06_sfg_model_correct.
+
+(* ---- recorded parent_index (qupulse/utils/tree.py).  The pure model applies [unroll] at a list position; the code reads
+   the recorded field [parent_index] of the node.  [itree] (Model_idx.v) is the tree whose nodes carry the recorded index,
+   [idx_ok] is C09's bookkeeping invariant restricted to it (every child at position j records j), [setitem_slice] is
+   Node.__setitem__ for slices incl. its renumbering rule, [iunroll]/[isplit]/[iunroll_children]/[iencapsulate] are the
+   rewrites executed with recorded indices.  Under the invariant they refine the pure rewrites and re-establish it;
+   without it (stale index, what _reverse_children left before a356242) unroll changes the pulse. *)
+
+Theorem C06_idx_setitem_slice_ok : forall p start stop value,
+  idx_ok p = true -> sub_ok value = true -> idx_ok (setitem_slice p start stop value) = true.
+Proof. exact setitem_slice_ok. Qed.
+Print Assumptions C06_idx_setitem_slice_ok.
+
+Theorem C06_idx_unroll_refines : forall p k p', idx_ok p = true -> iunroll p k = Ok p' ->
+  unroll_child (erase p) k = Ok (erase p') /\ idx_ok p' = true.
+Proof. exact iunroll_refines. Qed.
+Print Assumptions C06_idx_unroll_refines.
+
+Theorem C06_idx_unroll_refines_err : forall p k e, idx_ok p = true -> iunroll p k = Err e ->
+  unroll_child (erase p) k = Err e.
+Proof. exact iunroll_refines_err. Qed.
+Print Assumptions C06_idx_unroll_refines_err.
+
+Theorem C06_idx_unroll_preserves : forall p k p', tree_okb (erase p) = true -> idx_ok p = true -> iunroll p k = Ok p' ->
+  pieces (erase p') = pieces (erase p) /\ (duration (erase p') == duration (erase p))%Q /\ idx_ok p' = true.
+Proof. exact iunroll_preserves. Qed.
+Print Assumptions C06_idx_unroll_preserves.
+
+Theorem C06_idx_unroll_stale_refuted : exists p k p',
+  tree_okb (erase p) = true /\ idx_ok p = false /\ iunroll p k = Ok p' /\ pieces (erase p') <> pieces (erase p)
+  /\ unroll_child (erase p) k <> Ok (erase p').
+Proof. exact iunroll_stale_refuted. Qed.
+Print Assumptions C06_idx_unroll_stale_refuted.
+
+Theorem C06_idx_split_refines : forall p idx p', idx_ok p = true -> isplit p idx = Ok p' ->
+  split_one_child (erase p) idx = Ok (erase p') /\ idx_ok p' = true.
+Proof. exact isplit_refines. Qed.
+Print Assumptions C06_idx_split_refines.
+
+Theorem C06_idx_split_refines_err : forall p idx e, isplit p idx = Err e -> split_one_child (erase p) idx = Err e.
+Proof. exact isplit_refines_err. Qed.
+Print Assumptions C06_idx_split_refines_err.
+
+Theorem C06_idx_split_preserves : forall p idx p', tree_okb (erase p) = true -> idx_ok p = true -> isplit p idx = Ok p' ->
+  pieces (erase p') = pieces (erase p) /\ (duration (erase p') == duration (erase p))%Q /\ idx_ok p' = true.
+Proof. exact isplit_preserves. Qed.
+Print Assumptions C06_idx_split_preserves.
+
+Theorem C06_idx_unroll_children_refines : forall t t', idx_ok t = true -> iunroll_children t = Ok t' ->
+  unroll_children_op (erase t) = Ok (erase t') /\ idx_ok t' = true.
+Proof. exact iunroll_children_refines. Qed.
+Print Assumptions C06_idx_unroll_children_refines.
+
+Theorem C06_idx_encapsulate_refines : forall t, idx_ok t = true ->
+  erase (iencapsulate t) = encapsulate (erase t) /\ idx_ok (iencapsulate t) = true.
+Proof. exact iencapsulate_refines. Qed.
+Print Assumptions C06_idx_encapsulate_refines.
+
+Theorem C06_idx_reverse_children_ok : forall t, sub_ok (i_ch t) = true -> idx_ok (reverse_children t) = true.
+Proof. exact reverse_children_ok. Qed.
+Print Assumptions C06_idx_reverse_children_ok.
+
+Theorem C06_idx_representation : forall t, erase (index_tree t) = t /\ idx_ok (index_tree t) = true.
+Proof. exact index_tree_ok. Qed.
+Print Assumptions C06_idx_representation.
